@@ -1382,6 +1382,205 @@ M("C06", "R-target-arm-rewritten", ANIMF,
             < new_slaughter_rate
         ):''', None)
 
+# ---------------------------------------------------------------------------- C08
+OCF = "src/food_system/outdoor_crops.py"
+SEAF = "src/food_system/seafood.py"
+SFF = "src/food_system/stored_food.py"
+CSF = "src/food_system/cellulosic_sugar.py"
+SCPF = "src/food_system/methane_scp.py"
+SWF = "src/food_system/seaweed.py"
+GHF = "src/food_system/greenhouses.py"
+M("C08", "first-crop-year-12-months", OCF,
+  '''            MAY_UNTIL_DECEMBER_FIRST_YEAR_REDUCTION,
+            8,
+        )''', '''            MAY_UNTIL_DECEMBER_FIRST_YEAR_REDUCTION,
+            12,
+        )''', "C08.CAL")
+M("C08", "crop-cycle-off-by-one", OCF,
+  '''        month_index = self.STARTING_MONTH_NUM - 1''', '''        month_index = self.STARTING_MONTH_NUM''', "C08.CAL")
+M("C08", "crop-year3-block-13-months", OCF,
+  '''            RATIO_KCALS_POSTDISASTER_3Y, RATIO_KCALS_POSTDISASTER_3Y, 13
+        )[:-1]''', '''            RATIO_KCALS_POSTDISASTER_3Y, RATIO_KCALS_POSTDISASTER_3Y, 13
+        )''', "C08.CAL")
+M("C08", "crop-year4-uses-year3-ratio", OCF,
+  '''            RATIO_KCALS_POSTDISASTER_4Y, RATIO_KCALS_POSTDISASTER_4Y, 13
+        )[:-1]''', '''            RATIO_KCALS_POSTDISASTER_3Y, RATIO_KCALS_POSTDISASTER_3Y, 13
+        )[:-1]''', "C08.CAL")
+M("C08", "crop-loop-cycle-index-shift", OCF,
+  '''            cycle_index = i % 12''', '''            cycle_index = (i + 1) % 12''', "C08.LOOP")
+M("C08", "crop-loop-reduction-index-lag", OCF,
+  '''            baseline_reduction = self.all_months_reductions[i]''',
+  '''            baseline_reduction = self.all_months_reductions[max(i - 1, 0)]''', "C08.LOOP")
+M("C08", "grass-first-year-12-months", MDF,
+  '''                            ratio_human_inedible_feed
+                            * constants_for_params[
+                                "HUMAN_INEDIBLE_FEED_BASELINE_MONTHLY"
+                            ]
+                        ]
+                        * 8,''', '''                            ratio_human_inedible_feed
+                            * constants_for_params[
+                                "HUMAN_INEDIBLE_FEED_BASELINE_MONTHLY"
+                            ]
+                        ]
+                        * 12,''', "C08.CAL")
+M("C08", "grass-year-index-shift", MDF,
+  '''                ratio_human_inedible_feed = constants_for_params[
+                    "RATIO_GRASSES_YEAR" + str(i)
+                ]''', '''                ratio_human_inedible_feed = constants_for_params[
+                    "RATIO_GRASSES_YEAR" + str(min(i + 1, 10))
+                ]''', "C08.CAL")
+M("C08", "fish-distribution-waste-dropped", SEAF,
+  '''        FISH_WASTE_COEFFICIENT = (
+            1 - constants_for_params["WASTE_DISTRIBUTION"]["SEAFOOD"] / 100
+        ) * (1 - constants_for_params["WASTE_RETAIL"] / 100)''', '''        FISH_WASTE_COEFFICIENT = (
+            1 - constants_for_params["WASTE_RETAIL"] / 100)''', "C08.FORM")
+M("C08", "fish-annual-not-monthly", SEAF,
+  '''            * FISH_WASTE_COEFFICIENT
+            * 4e6
+            / 1e9
+            / 12
+        )''', '''            * FISH_WASTE_COEFFICIENT
+            * 4e6
+            / 1e9
+        )''', "C08.FORM")
+M("C08", "fish-percent-as-fraction", SEAF,
+  '''production_kcals_fish_per_month.append(x / 100 * self.FISH_KCALS)''',
+  '''production_kcals_fish_per_month.append(x * self.FISH_KCALS)''', "C08.FORM")
+M("C08", "stock-month-not-before", SFF,
+  '''        month_before_index = starting_month_index - 1''', '''        month_before_index = starting_month_index''', "C08.STOCK")
+M("C08", "stock-floor-uses-max", SFF,
+  '''        lowest_stocks = min(end_of_month_stocks)''', '''        lowest_stocks = max(end_of_month_stocks)''', "C08.STOCK")
+M("C08", "stock-waste-dropped", SFF,
+  '''            kcals=self.INITIAL_SF_KCALS * (1 - self.CROP_WASTE_DISTRIBUTION / 100),''',
+  '''            kcals=self.INITIAL_SF_KCALS,''', "C08.STOCK")
+M("C08", "cs-leadin-shortened", CSF,
+  '''np.array([0.0] * 5 + [4.7] * 3 + [9.5] * 1000),''', '''np.array([0.0] * 4 + [4.7] * 3 + [9.5] * 1000),''', "C08.DELAY")
+M("C08", "cs-delay-ignored", CSF,
+  '''                np.append(
+                    industrial_delay_months,
+                    np.array(''', '''                np.append(
+                    [],
+                    np.array(''', "C08.DELAY")
+M("C08", "cs-ramp-dips", CSF,
+  '''np.array([0.0] * 5 + [4.7] * 3 + [9.5] * 1000),''', '''np.array([0.0] * 5 + [4.7] * 3 + [3.5] * 1 + [9.5] * 1000),''', "C08.DELAY")
+M("C08", "scp-leadin-shortened", SCPF,
+  '''                + [0] * 12
+                + [2] * 5''', '''                + [0] * 10
+                + [2] * 5''', "C08.DELAY")
+M("C08", "gh-delay-ignored", GHF,
+  '''                            np.linspace(0, 0, self.greenhouse_delay),''', '''                            np.linspace(0, 0, 0),''', "C08.DELAY")
+M("C08", "seaweed-delay-ignored", SWF,
+  '''            sd = [self.INITIAL_BUILT_SEAWEED_AREA] * constants_for_params["DELAY"][
+                "SEAWEED_MONTHS"
+            ]
+        else:''', '''            sd = []
+        else:''', "C08.DELAY")
+M("C08", "seaweed-area-cap-removed", SWF,
+  '''        built_area_long[built_area_long > self.MAXIMUM_SEAWEED_AREA] = (
+            self.MAXIMUM_SEAWEED_AREA
+        )
+''', '', "C08.DELAY")
+M("C08", "revert-F16-ledger-adds-one", OPT,
+  '''prev_seaweed * growth_factor''', '''prev_seaweed * (1 + growth_factor)''', "C08.GROWTH")
+M("C08", "growth-compounds-31-days", SWF,
+  '''sorted_monthly_percents = 100 * (((sorted_daily_percents / 100) + 1) ** 30)''',
+  '''sorted_monthly_percents = 100 * (((sorted_daily_percents / 100) + 1) ** 31)''', "C08.GROWTH")
+M("C08", "growth-linear-not-compound", SWF,
+  '''sorted_monthly_percents = 100 * (((sorted_daily_percents / 100) + 1) ** 30)''',
+  '''sorted_monthly_percents = 100 * (1 + 30 * sorted_daily_percents / 100)''', "C08.GROWTH")
+M("C08", "revert-F17-world-grass-annual", SCENF,
+  '''constants_for_params["HUMAN_INEDIBLE_FEED_BASELINE_MONTHLY"] = 4206 / 12''',
+  '''constants_for_params["HUMAN_INEDIBLE_FEED_BASELINE_MONTHLY"] = 4206''', "C08.UNITLIT")
+M("C08", "start-month-june", PARF,
+  '''            "MAY"  # Default starting month for the simulation''', '''            "JUN"  # Default starting month for the simulation''', "C08.CAL")
+M("C08", "month-table-shifted", PARF,
+  '''            "MAY": 5,
+            "JUN": 6,''', '''            "MAY": 6,
+            "JUN": 5,''', "C08.CAL")
+M("C08", "R-crop-first-block-repeat", OCF,
+  '''        y1_to_y2 = np.linspace(
+            MAY_UNTIL_DECEMBER_FIRST_YEAR_REDUCTION,
+            MAY_UNTIL_DECEMBER_FIRST_YEAR_REDUCTION,
+            8,
+        )''', '''        y1_to_y2 = np.array([MAY_UNTIL_DECEMBER_FIRST_YEAR_REDUCTION] * 8)''', None)
+M("C08", "R-fish-coefficient-reordered", SEAF,
+  '''        FISH_WASTE_COEFFICIENT = (
+            1 - constants_for_params["WASTE_DISTRIBUTION"]["SEAFOOD"] / 100
+        ) * (1 - constants_for_params["WASTE_RETAIL"] / 100)''', '''        FISH_WASTE_COEFFICIENT = (1 - constants_for_params["WASTE_RETAIL"] / 100) * (
+            1 - constants_for_params["WASTE_DISTRIBUTION"]["SEAFOOD"] / 100
+        )''', None)
+M("C08", "R-stock-index-inlined", SFF,
+  '''        month_before_index = starting_month_index - 1
+
+        stocks_at_start_of_month = end_of_month_stocks[month_before_index]''',
+  '''        stocks_at_start_of_month = end_of_month_stocks[starting_month_index - 1]''', None)
+
+# ---------------------------------------------------------------------------- C09
+M("C09", "revert-F3-no-relocation-arm-forgets-greenhouses", OCF,
+  '''                crops_produced = np.multiply(
+                    np.array(self.NO_RELOCATION_KCALS_GROWN),
+                    (1 - greenhouse_fraction_area),
+                )''', '''                crops_produced = np.array(self.NO_RELOCATION_KCALS_GROWN)''', "C09.GH")
+M("C09", "revert-F2-int-array", OCF,
+  '''                crops_produced = np.zeros(self.NMONTHS)
+
+                hd = (''', '''                crops_produced = np.array([0] * self.NMONTHS)
+
+                hd = (''', "C09.QUANT")
+M("C09", "early-months-forget-greenhouses", OCF,
+  '''                crops_produced[:hd] = np.multiply(
+                    np.array(self.NO_RELOCATION_KCALS_GROWN[:hd]),
+                    (1 - greenhouse_fraction_area[:hd]),
+                )''', '''                crops_produced[:hd] = np.array(self.NO_RELOCATION_KCALS_GROWN[:hd])''', "C09.GH")
+M("C09", "late-months-share-misaligned", OCF,
+  '''                    np.array(self.KCALS_GROWN[hd:]), (1 - greenhouse_fraction_area[hd:])''',
+  '''                    np.array(self.KCALS_GROWN[hd:]), (1 - greenhouse_fraction_area[:-hd])''', "C09.GH")
+M("C09", "share-added-not-subtracted", OCF,
+  '''                    np.array(self.KCALS_GROWN[hd:]), (1 - greenhouse_fraction_area[hd:])''',
+  '''                    np.array(self.KCALS_GROWN[hd:]), (1 + greenhouse_fraction_area[hd:])''', "C09.GH")
+M("C09", "share-is-area-not-fraction", PARF,
+  '''greenhouses.greenhouse_fraction_area''', '''greenhouse_area''', "C09.GH")
+M("C09", "share-divided-by-wrong-area", GHF,
+  '''        self.greenhouse_fraction_area = greenhouse_area / self.TOTAL_CROP_AREA''',
+  '''        self.greenhouse_fraction_area = greenhouse_area / GREENHOUSE_LIMIT_AREA''', "C09.GH")
+M("C09", "greenhouse-ramp-overshoots", GHF,
+  '''                        np.linspace(0, GREENHOUSE_LIMIT_AREA, 37),''', '''                        np.linspace(0, GREENHOUSE_LIMIT_AREA * 1.5, 37),''', "C09.AREA")
+M("C09", "greenhouse-area-without-leadin", GHF,
+  '''                            np.linspace(0, 0, 5),''', '''                            np.linspace(0, 0, 0),''', "C09.AREA")
+M("C09", "no-greenhouses-nonzero-area", GHF,
+  '''            greenhouse_area = np.array([0] * self.NMONTHS)''', '''            greenhouse_area = np.array([self.TOTAL_CROP_AREA] * self.NMONTHS)''', "C09.AREA")
+M("C09", "relocation-assert-removed", OCF,
+  '''            assert (
+                self.KCALS_GROWN[-1] >= month_kcals * baseline_reduction
+            ), "ERROR: Relocation has somehow decreased crop production!"''', '''            pass''', "C09.RELOC")
+M("C09", "relocation-arms-swapped", OCF,
+  '''            if baseline_reduction > 1:
+                self.KCALS_GROWN.append(month_kcals * baseline_reduction)''', '''            if baseline_reduction <= 1:
+                self.KCALS_GROWN.append(month_kcals * baseline_reduction)''', "C09.RELOC")
+M("C09", "expanded-area-applied-always", OCF,
+  '''        if constants_for_params["RATIO_INCREASED_CROP_AREA"] > 1:
+            self.assign_increase''', '''        if constants_for_params["RATIO_INCREASED_CROP_AREA"] > 0:
+            self.assign_increase''', "C09.RELOC")
+M("C09", "production-rounded", OCF,
+  '''            kcals=np.array(crops_produced) * (1 - self.CROP_WASTE_DISTRIBUTION / 100),''',
+  '''            kcals=np.round(np.array(crops_produced) * (1 - self.CROP_WASTE_DISTRIBUTION / 100)),''', "C09.QUANT")
+M("C09", "grown-truncated-to-int", OCF,
+  '''            self.NO_RELOCATION_KCALS_GROWN.append(month_kcals * baseline_reduction)''',
+  '''            self.NO_RELOCATION_KCALS_GROWN.append(int(month_kcals * baseline_reduction))''', "C09.QUANT")
+M("C09", "R-no-relocation-arm-operator-form", OCF,
+  '''                crops_produced = np.multiply(
+                    np.array(self.NO_RELOCATION_KCALS_GROWN),
+                    (1 - greenhouse_fraction_area),
+                )''', '''                crops_produced = np.array(self.NO_RELOCATION_KCALS_GROWN) * (1 - greenhouse_fraction_area)''', None)
+M("C09", "R-else-arm-float-zeros", OCF,
+  '''        else:
+            crops_produced = np.array([0] * self.NMONTHS)
+
+        self.production = Food(''', '''        else:
+            crops_produced = np.zeros(self.NMONTHS)
+
+        self.production = Food(''', None)
+
 # ---------------------------------------------------------------------------- runner
 
 COPY = ["src", "scenarios", "scripts", "plot_manuscript_figures.py", "tests"]
